@@ -208,6 +208,13 @@ def eval_pairs(arg):
         rA, rB = res[2 * q], res[2 * q + 1]
         if rA.exc or rB.exc:
             out["thrown"] += 1
+            # all lattice points are inside the documented input domain: the only legitimate refusal is a
+            # tachyonic spectrum (EPhysicalProblem); EInvalidInput / ESetupError / anything else is a defect
+            for c_, r_ in ((cA, rA), (cB, rB)):
+                if r_.exc and r_.exc[0] != "EPhysicalProblem":
+                    out["fails"].append(("%s:valid-input-refused:%s" % (kind, r_.exc[0]),
+                                         "input inside the documented domain is refused: %s %s; %s" % (r_.exc[0], r_.exc[1], brief(c_)), (kind, cA, cB)))
+                    break
             if bool(rA.exc) != bool(rB.exc):
                 # the Higgs sector is identical: both parametrisations must be accepted or rejected together
                 out["fails"].append(("%s:accepted-by-one-only" % kind,
@@ -248,6 +255,11 @@ def eval_groups(arg):
             out["n"] += 1
             if ref.exc or r.exc:
                 out["thrown"] += 1
+                for c_, r_ in ((cs[0], ref), (c, r)):
+                    if r_.exc and r_.exc[0] != "EPhysicalProblem":
+                        out["fails"].append(("c:valid-input-refused:%s" % r_.exc[0],
+                                             "input inside the documented domain is refused: %s %s; %s" % (r_.exc[0], r_.exc[1], brief(c_)), ("c", cs[0], c)))
+                        break
                 if (ref.exc or None) != (r.exc or None):
                     out["fails"].append(("c:%s:outcome" % label, "reference %r, with the ignored input set %r" % (ref.exc, r.exc), ("c", cs[0], c)))
                 continue
@@ -437,6 +449,7 @@ def run(ctx):
     ctx.assumptions += [
         "tolerance 1e-10 x sum of |terms|: a_mu terms = the library's own h, H, A, H+, SM pieces (1L, 2L-F) and EWadd, nonYuk, Yuk (2L-B); Yukawa entries: |sba| M/v, |cba| rho/sqrt2, rho terms from the inputs",
         "the SM input set (default / complete alternate set: MW, MZ, alpha_em, alpha_s, fermion masses, m_hSM) is a context dimension; every harness process evaluates both sets interleaved, every 4th process is repeated in reversed order and compared bitwise",
+        "a constructor exception other than EPhysicalProblem (tachyon) on a lattice point is a violation (valid input refused)",
         "(c) compares the hex-float text of spectrum, a_mu and the twelve Yukawa matrices (bitwise, sign of zero included)"]
     return ctx.finish(
         "(a) contexts = all assignments with <= %d deviating dimensions from 3 mass-basis + 2 gauge-basis base points (Higgs sector, CKM, SM input set, Delta_f) x type I/II/X/Y x running on/off; "
